@@ -234,8 +234,8 @@ class Shape(object):
 
     def implicit_class_targets(self):
         types = list(self.sg.graph.objects(self.node, RDF_type))
-        subclasses = list(self.sg.graph.subjects(RDFS_subClassOf, RDFS_Class))
-        subclasses.append(RDFS_Class)
+        # rdfs:Class itself and everything that is (transitively) a subclass of it
+        subclasses = set(self.sg.graph.transitive_subjects(RDFS_subClassOf, RDFS_Class))
         for t in types:
             if t in subclasses:
                 return [self.node]
